@@ -306,8 +306,9 @@ CLAIMED = {
 
 # clauses added in the rounds of 2026-09-28 (appended to the text of the property)
 ADDED = {
-    'C01': 'The translation of a failing configuration instruction is a decision table obtained by abstract evaluation of the translating function for every kind of failure and every `status` setting (the kind is reported as it is, whatever the status).',
-    'C03': 'Validators and assertion parts that an object keeps and traverses in both validation rounds are never one-shot iterators (generator expressions, map, filter handed to a constructor that stores them).',
+    'C02': 'Every visit method of the handler a ParseError is given to raises the access error (a parse error is never lost).',
+    'C01': 'execute_phase_prim is evaluated with one explicit element of each kind (instructions are executed, comments and empty elements are not); each step action of the ATC executor raises the failure of its step exactly when the answer of the actor says not successful. The translation of a failing configuration instruction is a decision table obtained by abstract evaluation of the translating function for every kind of failure and every `status` setting (the kind is reported as it is, whatever the status).',
+    'C03': 'In the branch where a value has just been found None / false no attribute of it is read (an optional validator is consulted when present, not when absent). Validators and assertion parts that an object keeps and traverses in both validation rounds are never one-shot iterators (generator expressions, map, filter handed to a constructor that stores them).',
     'C05': 'Every way the replacer can be constructed is analysed (a flag set in the constructor selects a path): on each the text is substituted by the compiled pattern itself.',
     'C07': 'The document parser and the act-phase parser recognise a section header by one and the same predicate (resolved callee identity).',
     'C09': 'A rest-of-line string (`:> TEXT`) is exactly one reading of the rest of the line, optionally stripped; where the scanner has found a reference the fragments end with the symbol fragment of its name on every path.',
@@ -318,8 +319,8 @@ ADDED = {
     'C14': 'What as_lines hands out is a one-shot iterator, never a list; no one-shot iterator is handed to a constructor that keeps and traverses it; no open() passes newline=, encoding= or errors=; the two outcomes of freezing through the spooled buffer (kept in memory / moved to disk) must treat line ends alike - they do not (KNOWN FINDING D20).',
     'C15': 'Depth limits of 0 are limits (no truth test of an optional number); makers that create through package helpers are followed; the recursive listing schedules a directory independently of what the walk has seen; in `matches` (non-full) a listed file that does not satisfy its matcher decides the verdict on every path.',
     'C16': 'JUnit <error> / <failure> elements are recognised by role (construction of the XML element, helpers interpreted); every raising file-system query on a path from a suite file is inside a handler for OSError that raises the suite error (found defect D19, fixed); wildcards are matched by pathlib (names beginning with a dot are matched).',
-    'C17': 'Every suite of a hierarchy is resolved against the default handling setup of the reading environment (value origin through parameters and call sites, not the name of the method); the case file and the --suite file of a standalone run are the files as named (no resolution of links); no method writes a container bound in a class body (whole tree).',
-    'C18': 'Handlers that turn a parse failure into a syntax error need no current line of a source that may have been consumed to its end (members whose docstring states the precondition, followed through the functions the source is handed to); the optional positions of re.error are not used as numbers unguarded.',
+    'C17': 'The [conf] section of a suite is partitioned: every element is in exactly one of the suite part and the part contributed to the cases. Every suite of a hierarchy is resolved against the default handling setup of the reading environment (value origin through parameters and call sites, not the name of the method); the case file and the --suite file of a standalone run are the files as named (no resolution of links); no method writes a container bound in a class body (whole tree).',
+    'C18': 'No attribute of a value just found None / false is read (whole tree). Handlers that turn a parse failure into a syntax error need no current line of a source that may have been consumed to its end (members whose docstring states the precondition, followed through the functions the source is handed to); the optional positions of re.error are not used as numbers unguarded.',
     'C19': 'Every instruction environment the executor builds carries settings made from the live instruction settings at that moment (not a stored snapshot); a timeout of 0 is a timeout (no truth test of an optional number).',
     'C20': 'No memo shared by all sections / entities (no method writes a class-level container); the name lookup behind `help X NAME` is evaluated over lists of 1-3 symbolic keys and every relation of the pattern to each key: an identical key wins wherever it stands.',
 }
